@@ -393,3 +393,115 @@ def check_C09(ctx):
     return skeleton_check(ctx, "C09", "Acv.Props.C09", C09_THEOREMS, extra=hist_stream,
         rule="histories of 4..9 documents (random graphs that pass/fail, repeats, empty graph, JSON-LD-rejected and undecodable documents) through one PreparedEvalQuery of a random declarative profile with validations on all three levels; each report compared byte for byte with a fresh ValidateWithConfiguration under a fixed clock",
         assumptions=["OPA's PreparedEvalQuery.Eval is a pure function of (query, input) returning fresh result trees: this is the hypothesis of history_independent (Engine.evalDoc) and is only observed by the history runs"])
+
+
+# ------------------------------------------------------------------ C03
+
+C03_THEOREMS = ["Acv.C03.severity_is_level", "Acv.C03.conforms_iff", "Acv.C03.warnings_dont_affect_conforms",
+                "Acv.C03.result_key_iff_nonempty", "Acv.C03.profileName_eq", "Acv.C03.dateCreated_iff",
+                "Acv.C03.config_only_touches", "Acv.C03.undefined_skipped", "Acv.C03.mem_bucket"]
+
+C03_FIELDS = ("conforms", "profileName", "hasResult", "dateCreated", "results", "ctxReportSchema", "ctxLexicalSchema")
+
+
+def cmp_c03(case, i, m):
+    if "error" in m:
+        return ("model-error", "model driver rejected the case: " + m["error"])
+    if i.get("outcome") != "ok":
+        return ("impl-" + str(i.get("outcome")), f"profile with levels {case['levels']}: real code gave {i.get('outcome')}: {str(i.get('err'))[:200]}")
+    # the property itself, on the real report
+    viol = [r for r in i["results"] if r.startswith("http://www.w3.org/ns/shacl#Violation|")]
+    if i["conforms"] != (len(viol) == 0):
+        return ("conforms", f"conforms={i['conforms']} but the report has {len(viol)} Violation results")
+    if i["hasResult"] != (len(i["results"]) > 0):
+        return ("result-key", f"result key present={i['hasResult']} with {len(i['results'])} results")
+    for k in C03_FIELDS:
+        if i.get(k) != m.get(k):
+            return (k, f"report field {k}: real {str(i.get(k))[:200]} vs model {str(m.get(k))[:200]} (levels {case['levels']}, profile name {case['profileName']!r}, config {case['config']})")
+    return None
+
+
+def check_C03(ctx):
+    broken = []
+    try:
+        build_harness()
+    except Broken as b:
+        return conclude(ctx, [b])
+    broken += prove(ctx, "Acv.Props.C03", C03_THEOREMS)
+    try:
+        corr(ctx, "c03", 240 if ctx.quick() else 6000, cmp_c03)
+        ctx.oblige("correspondence:c03 report header real-vs-model", not ctx.violations)
+    except Broken as b:
+        broken.append(b)
+    ctx.coverage["rule"] = ("0..5 validations (names include profile-language keys such as `warning`, `message`, `and`) spread at random over the three levels "
+                            "(absent/empty levels, a name under several levels or twice in one, undefined names), profile names that equal keys, random graphs, "
+                            "random report configuration (dateCreated on/off, clock, schema IRIs); non-trivial = the report differs from the default conforming one")
+    return conclude(ctx, broken, trusted=TRUST_COMMON)
+
+
+# ------------------------------------------------------------------ C18
+
+C18_THEOREMS = ["Acv.C18.open_truncates", "Acv.C18.stdout_uses_println", "Acv.C18.write_exact", "Acv.C18.validate_file_exact",
+                "Acv.C18.stdout_exact", "Acv.C18.failure_no_stdout", "Acv.C18.stale_tail"]
+
+
+def check_C18(ctx):
+    broken = []
+    try:
+        build_harness()
+        run_extract()
+        acv = build_cli()
+    except Broken as b:
+        return conclude(ctx, [b])
+    broken += prove(ctx, "Acv.Props.C18", C18_THEOREMS)
+    try:
+        os.environ["ACV_BIN"] = acv
+        lines = gen_cases("cli", 4 if ctx.quick() else 60, ctx.seed)
+        impl = run_impl(lines)
+        # second phase: the model gets the library's output and the prior file state
+        mlines = []
+        for line, i in zip(lines, impl):
+            c = json.loads(line)
+            mc = {"op": "cli", "sub": c["sub"], "toFile": c["toFile"]}
+            if i.get("outcome") == "ok":
+                if not i["libFailed"]:
+                    mc["lib"] = i["lib"]
+                if i.get("prior") is not None:
+                    mc["prior"] = i["prior"]
+            mlines.append(json.dumps(mc))
+        model = run_model(mlines)
+        bad = 0
+        hist = {}
+        for line, i, m in zip(lines, impl, model):
+            c = json.loads(line)
+            key = f"{c['sub']}/{'file:' + c['prior'] if c['toFile'] else 'stdout'}/{c['kind']}"
+            hist[key] = hist.get(key, 0) + 1
+            desc = None
+            if i.get("outcome") != "ok":
+                desc = ("harness", f"could not run the binary: {i.get('outcome')}")
+            elif "error" in m:
+                desc = ("model-error", m["error"])
+            elif (i["exit"] == 0) != m["exitZero"]:
+                desc = ("exit", f"acv {c['sub']} ({c['kind']}): exit status {i['exit']} but the library {'failed' if i['libFailed'] else 'succeeded'} ({i.get('stderrHead')})")
+            elif i["stdout"] != m["stdout"]:
+                desc = ("stdout", f"acv {c['sub']} ({c['kind']}): stdout ({len(i['stdout'])} bytes) differs from the library's output + newline ({len(m['stdout'])} bytes)")
+            elif c["toFile"] and i.get("file") != m.get("file"):
+                desc = ("file:" + c["prior"], f"acv validate with output file (prior state {c['prior']}): file has {len(i.get('file') or '')} bytes, the report has {len(m.get('file') or '')}")
+            elif not i.get("dateOk", True):
+                desc = ("date", "dateCreated printed by the CLI is not an RFC 3339 time within the run window")
+            if desc:
+                bad += 1
+                ctx.violation(f"C18:{desc[0]}:{c['sub']}:{c['kind']}", desc[1],
+                              {"case": c, "impl": {k: (v if not isinstance(v, str) or len(v) < 600 else v[:600] + '...') for k, v in i.items()}, "model": {k: (v if not isinstance(v, str) or len(v) < 600 else v[:600] + '...') for k, v in m.items()}})
+        ctx.coverage.setdefault("streams", {})["cli"] = {"cases": len(lines), "by_kind": hist}
+        ctx.coverage["evaluations"] = len(lines)
+        ctx.coverage["distinct_nontrivial"] = len(hist)
+        ctx.samples.append({"stream": "cli", "case": {k: json.loads(lines[3])[k] for k in ("sub", "prior", "toFile", "kind")},
+                            "impl": {k: impl[3].get(k) for k in ("exit", "libFailed", "dateOk")}})
+        ctx.oblige("correspondence:built acv binary vs library output over prior file states x subcommands", bad == 0)
+    except Broken as b:
+        broken.append(b)
+    ctx.coverage["rule"] = ("acv validate/generate/normalize/compile on conforming, violating, random and failing inputs; output file prior state absent/empty/shorter/longer/1MiB; "
+                            "library output computed in-process; only the value of dateCreated is masked (checked to be RFC 3339 within the run window)")
+    ctx.assumptions += ["a read-only output file cannot be produced as root in this sandbox: that prior state exists only in the model"]
+    return conclude(ctx, broken, trusted=TRUST_COMMON + ["os.OpenFile/os.Create/WriteString semantics (modelled by opened/writeAt0)"])
